@@ -79,11 +79,23 @@ def explore(h, variant, tier, max_paths):
         except Exception as e:
             # exception escaping the real code on this path: feasible?
             tb = traceback.format_exc()
-            full = z3.Solver()          # the FULL path condition decides whether this path exists
-            full.set('timeout', 8000)
-            for p_ in ctx.pc:
-                full.add(p_)
-            r = full.check()
+            # an exception raised INSIDE the model of numpy (innermost frame in pvc code, or a TypeError about a pvc class's
+            # signature / operands) is a gap of the model, not behaviour of the real code: undecided, never a violation
+            last = traceback.extract_tb(e.__traceback__)[-1]
+            model_gap = (os.sep + 'pvc' + os.sep in last.filename and isinstance(e, (TypeError, AttributeError, NotImplementedError))) or \
+                bool(isinstance(e, TypeError) and re.search(r"(SArr|Sigma|SInt|SReal|SBool|SList|Cx)\W.*(unexpected keyword|positional argument|unsupported operand|not supported)", str(e)))
+            if not model_gap and isinstance(e, (KeyError, AttributeError)) and (os.sep + 'contracts' + os.sep) in last.filename:
+                model_gap = True       # the harness could not reach what it wanted to look at (private cache / attribute): a limit of the harness
+            if model_gap:
+                errors.append('unsupported: %s' % e)
+                ctx.results.append(('supported-subset', 'unknown', {'reason': 'unsupported (model gap): %s: %s' % (type(e).__name__, e), 't': 0, 'safety': False}))
+                r = z3.unsat
+            else:
+                full = z3.Solver()          # the FULL path condition decides whether this path exists
+                full.set('timeout', 8000)
+                for p_ in ctx.pc:
+                    full.add(p_)
+                r = full.check()
             if r != z3.unsat:
                 info = {'t': 0, 'safety': False, 'exception': '%s: %s' % (type(e).__name__, e),
                         'traceback': tb[-1500:], 'path': ''.join('T' if d else 'F' for d in ctx.trail)}
